@@ -327,8 +327,12 @@ def run_case(case: dict) -> dict:
             # deciding: a restarted upstream is no longer "finished" for any join that has not fired yet
             inj.append({"at": rng.randrange(2, max(3, ref.steps)), "do": "restart_stage", "ref": rng.choice(refs)})
             obs["restart_injections"] += 1
-        run = delivery_run(spec, seed=rng.randrange(1 << 30), order=rng.choice(["random", "random", "lifo", "fifo"]), noack_p=rng.choice([0.0, 0.15, 0.3]), injections=inj, max_steps=budget)
+        # every fourth schedule: the store also holds other executions of the same template (same references)
+        twins = rng.choice([1, 2]) if j % 4 == 1 else 0
+        run = delivery_run(spec, seed=rng.randrange(1 << 30), order=rng.choice(["random", "random", "lifo", "fifo"]), noack_p=rng.choice([0.0, 0.15, 0.3]), injections=inj, max_steps=budget, twins=twins)
         obs["evaluations"] += 1
+        if twins:
+            obs["runs_next_to_twin_executions"] += 1
         obs["injected_start_messages"] += len(run.injected)
         if run.budget_exhausted:
             obs["budget_exhausted"] += 1
